@@ -1,8 +1,21 @@
-(* Model of protocol/chain_bridge.go InsertChain (C16), step by step, over an abstract chain.
+(* Model of protocol/chain_bridge.go InsertChain (C16), step by step, over an abstract chain and an abstract pool of
+   unconfirmed account blocks.
    A momentum is (hash, previous hash, height); the local chain is the list of own momentums, oldest first, the
-   last one is the frontier. Full verification of a delivered momentum and of its account blocks
-   (Supervisor.ApplyBlock for every block, Supervisor.ApplyMomentum) is the ORACLE [valid chain d]; the two
-   structural parts of it that InsertChain's behaviour depends on are explicit:
+   last one is the frontier. A delivered momentum carries its account blocks (all but BlockTypeContractSend,
+   which the loop skips) as (identifier, account, account height); the pool is the list of the account blocks that
+   have a patch in the node's account pool (chain.GetPatch != nil).
+   Verification is split into two ORACLES:
+     - [bvalid chain pool b]  : Supervisor.ApplyBlock(b) succeeds (verifier.AccountBlock, vm, changes hash) on this chain
+                                with this pool;
+     - [mvalid chain d]       : Supervisor.ApplyMomentum(d) succeeds (verifier.Momentum, content = delivered blocks,
+                                changes hash, producer, signature) once every block of d has a patch in the pool.
+   What InsertChain does around them is explicit:
+     - a delivered block that already has a patch in the pool is NOT verified again ("already applied", continue);
+     - a block that verifies is put in the pool (ForceAddAccountBlockTransaction) and stays there when the momentum
+       that carries it fails afterwards;
+     - chain.RollbackTo -> accountPool.DeleteMomentum drops the WHOLE pool ([clears = true]; [clears = false] is the
+       variant in which pooled blocks survive a rollback, kept only to show what the clearing is needed for);
+     - an adopted momentum takes its blocks out of the pool (accountPool.InsertMomentum / rebuild);
      - verifier.getContext: the previous momentum must be one of ours (else ErrMPreviousMissing);
      - ldbManager.Add writes the momentum only if its previous is the current frontier and otherwise returns nil
        without writing (so a verified momentum that does not extend the frontier is skipped silently).
@@ -12,6 +25,9 @@ From ZV Require Import Prelude GoSem.
 Open Scope Z_scope.
 
 Record smom := mkS { s_hash : Z; s_prev : Z; s_height : Z }.
+(* an account block: identifier (hash), account, height on the account chain *)
+Record blk := mkB { b_id : Z; b_acc : Z; b_height : Z }.
+Record dmom := mkD { d_mom : smom; d_blocks : list blk }.
 
 Definition smom_eqb (a b : smom) : bool :=
   (s_hash a =? s_hash b) && (s_prev a =? s_prev b) && (s_height a =? s_height b).
@@ -39,51 +55,81 @@ Definition known_prev (c : list smom) (d : smom) : bool := existsb (prev_is d) c
 Definition extends (c : list smom) (d : smom) : bool :=
   match frontier c with Some f => prev_is d f | None => false end.
 
+Definition blk_eqb (a b : blk) : bool :=
+  (b_id a =? b_id b) && (b_acc a =? b_acc b) && (b_height a =? b_height b).
+(* chain.GetPatch(address, identifier = (hash, height)) != nil *)
+Definition pooled (b : blk) (pool : list blk) : bool := existsb (blk_eqb b) pool.
+(* accountPool.InsertMomentum: the blocks of the inserted momentum are confirmed, they leave the pool *)
+Definition confirm (bs pool : list blk) : list blk := filter (fun y => negb (pooled y bs)) pool.
+(* accountPool.addAccountBlockTransaction(force): a block that does not sit on the pooled frontier of its account
+   replaces the pooled blocks of that account from its height on ("rollback blocks and insert this one") *)
+Definition force_add (b : blk) (pool : list blk) : list blk :=
+  filter (fun y => negb ((b_acc y =? b_acc b) && (b_height b <=? b_height y))) pool ++ [b].
+
+(* the node as InsertChain sees it: own momentums, identifiers of the pooled (unconfirmed) account blocks *)
+Definition nstate := (list smom * list blk)%type.
+
 Section InsertChain.
-  Variable valid : list smom -> smom -> bool.      (* all account blocks and the momentum pass full verification *)
+  Variable bvalid : list smom -> list blk -> blk -> bool.   (* the account block passes full verification *)
+  Variable mvalid : list smom -> dmom -> bool.          (* the momentum passes full verification *)
   Variable fixed : bool.
+  Variable clears : bool.                               (* DeleteMomentum drops the whole pool (the code: true) *)
 
   (* "remove momentums which we already have": same hash at the same height *)
-  Fixpoint skip_known (c : list smom) (ds : list smom) (start : Z) : Z * list smom :=
+  Fixpoint skip_known (c : list smom) (ds : list dmom) (start : Z) : Z * list dmom :=
     match ds with
     | [] => (start, [])
-    | d :: r => match by_height c (s_height d) with
-                | Some our => if s_hash our =? s_hash d then skip_known c r (start + 1) else (start, ds)
+    | d :: r => match by_height c (s_height (d_mom d)) with
+                | Some our => if s_hash our =? s_hash (d_mom d) then skip_known c r (start + 1) else (start, ds)
                 | None => (start, ds)
                 end
     end.
 
-  (* "Insert momentum now": in order, early return index + start *)
-  Fixpoint apply_all (c : list smom) (ds : list smom) (idx : Z) : ic_res * list smom :=
-    match ds with
-    | [] => (ICOk, c)
-    | d :: r =>
-        if known_prev c d && valid c d
-        then apply_all (if extends c d then c ++ [d] else c) r (idx + 1)
-        else (ICErr idx EInvalid, c)
+  (* the inner loop over detailed.AccountBlocks: false = ApplyBlock returned an error *)
+  Fixpoint apply_blocks (c : list smom) (pool : list blk) (bs : list blk) : bool * list blk :=
+    match bs with
+    | [] => (true, pool)
+    | b :: r =>
+        if pooled b pool then apply_blocks c pool r                     (* patch != nil: already applied *)
+        else if bvalid c pool b then apply_blocks c (force_add b pool) r   (* ApplyBlock, ForceAddAccountBlockTransaction *)
+        else (false, pool)
     end.
 
-  Definition insert_chain (c : list smom) (ds : list smom) : ic_res * list smom :=
+  (* "Insert momentum now": in order, early return index + start *)
+  Fixpoint apply_all (c : list smom) (pool : list blk) (ds : list dmom) (idx : Z) : ic_res * nstate :=
     match ds with
-    | [] => (if fixed then ICErr 0 EEmpty else ICPanic, c)                (* momentums[0] *)
+    | [] => (ICOk, (c, pool))
+    | d :: r =>
+        let '(okb, p1) := apply_blocks c pool (d_blocks d) in
+        if okb && (known_prev c (d_mom d) && mvalid c d)
+        then if extends c (d_mom d)
+             then apply_all (c ++ [d_mom d]) (confirm (d_blocks d) p1) r (idx + 1)
+             else apply_all c p1 r (idx + 1)
+        else (ICErr idx EInvalid, (c, p1))
+    end.
+
+  Definition insert_chain (c : list smom) (pool : list blk) (ds : list dmom) : ic_res * nstate :=
+    match ds with
+    | [] => (if fixed then ICErr 0 EEmpty else ICPanic, (c, pool))        (* momentums[0] *)
     | _ :: _ =>
       let '(start, rest) := skip_known c ds 0 in
       match rest with
-      | [] => (ICOk, c)                                                    (* nothing to insert *)
+      | [] => (ICOk, (c, pool))                                            (* nothing to insert *)
       | head :: _ =>
         let tail := last rest head in
         match frontier c with
-        | None => (ICErr 0 ENoFrontier, c)
+        | None => (ICErr 0 ENoFrontier, (c, pool))
         | Some fr =>
-          if prev_is head fr then apply_all c rest start
+          if prev_is (d_mom head) fr then apply_all c pool rest start
           else
-            match by_height c (u64 (s_height head - 1)) with
-            | None => (if fixed then ICErr 0 ELink else ICPanic, c)        (* target.Identifier() on nil *)
+            match by_height c (u64 (s_height (d_mom head) - 1)) with
+            | None => (if fixed then ICErr 0 ELink else ICPanic, (c, pool)) (* target.Identifier() on nil *)
             | Some target =>
-              if negb (prev_is head target) then (ICErr 0 ELink, c)
-              else if 30 <? u64 (s_height fr - s_height target) then (ICErr 0 ETooFar, c)
-              else if s_height tail <=? s_height fr then (ICErr 0 ENotLonger, c)
-              else apply_all (rollback_to c (s_height target)) rest start  (* rollback BEFORE verification *)
+              if negb (prev_is (d_mom head) target) then (ICErr 0 ELink, (c, pool))
+              else if 30 <? u64 (s_height fr - s_height target) then (ICErr 0 ETooFar, (c, pool))
+              else if s_height (d_mom tail) <=? s_height fr then (ICErr 0 ENotLonger, (c, pool))
+              else apply_all (rollback_to c (s_height target))             (* rollback BEFORE verification; *)
+                             (if clears then [] else pool) rest start      (* DeleteMomentum empties the pool *)
             end
         end
       end
